@@ -21,7 +21,8 @@ PROPS = ("Props/C02_vector.v", "Props/C09_vector.v", "Props/C14_vector.v", "Prop
 EXTRA_TARGETS = {   # only what the part needs: e.g. a broken batch-norm or nll-backward proof must not take the C09 part down
     "Props/C02_vector.v": ["Analysis/Vector.vo", "Gen/GenVecKernels.vo", "Proofs/VecKernelProofs.vo", "Proofs/VecKernelProofsLossFwd.vo",
                            "Proofs/VecKernelProofsLossBwd.vo", "Proofs/VecKernelProofsBN.vo"],
-    "Props/C09_vector.v": ["Analysis/Vector.vo", "Gen/GenVecKernels.vo", "Proofs/VecKernelProofs.vo", "Proofs/VecKernelProofsLossFwd.vo"],
+    "Props/C09_vector.v": ["Analysis/Vector.vo", "Gen/GenVecKernels.vo", "Proofs/VecKernelProofs.vo", "Proofs/VecKernelProofsLossFwd.vo",
+                           "Proofs/VecKernelProofsStability.vo"],
     "Props/C14_vector.v": ["Analysis/Vector.vo", "Gen/GenVecKernels.vo", "Proofs/VecKernelProofs.vo", "Proofs/VecKernelProofsLossFwd.vo",
                            "Proofs/VecKernelProofsLossBwd.vo"],
     "Props/C13_vector.v": ["Analysis/Vector.vo", "Gen/GenVecKernels.vo", "Proofs/VecKernelProofsBNStats.vo"],
